@@ -88,3 +88,5 @@ def handle (toks : List String) : Option String :=
   | _ => none
 
 end Oracle.C05
+
+def main (_ : List String) : IO Unit := Oracle.runMain Oracle.C05.handle
